@@ -30,9 +30,11 @@
   that log with the model's step trace (`Driver.Thr.traceOf`), every chunk written, the per-call
   results and the final flags.  The step lists below were written from those logs.
 
-  Socket write failures (`TransportFail`) and a `sendall` of any number of chunks are in
-  `Model/ThreadsN.lean` (the same states and programs, a more general socket; this file is its
-  instance "two chunks, no failure").  Not modelled: the 1002 Close of a protocol error and
+  A write on a socket that the loop thread has already shut (`sockShut`: the window between the `shutdown(); close()`
+  of `_close_socket()` and its `_sock = None` / the `closed = True` of `on_disconnect`, in which `_check_writable` still
+  lets a sender through) fails: `TransportFail`, nothing written (`failWrite`).  Injected socket write failures
+  and a `sendall` of any number of chunks are in `Model/ThreadsN.lean` (the same states and programs, a more general
+  socket; this file is its instance "two chunks, no injected failure").  Not modelled: the 1002 Close of a protocol error and
   `session.close()` called by the application (single-threaded paths: C04, C08, C09, C13); the
   loop thread's tests of `closed` / `_sock` never branch (it is their only writer and stops after
   writing them).
@@ -112,8 +114,8 @@ inductive Call
   deriving Repr, DecidableEq, Inhabited
 
 /-- the WebSocketError raised inside `session.write`; `transport` = `TransportFail` raised by
-    `_sendall` when the socket's `sendall` fails (only the generalised socket of
-    `Model/ThreadsN.lean` produces it; the socket of this file never fails) -/
+    `_sendall` when the socket's `sendall` fails: in this file only on a socket that has been shut
+    (`sockShut`, see `failWrite`); the generalised socket of `Model/ThreadsN.lean` can also be told to fail -/
 inductive Err
   | unavailable | closed | closing | transport
   deriving Repr, DecidableEq, Inhabited
@@ -377,6 +379,12 @@ def descOf (f : FrameSrc) (c : Cur) : FrameDesc :=
     | some (ctx, out) => ⟨f.op, .deflated ctx out⟩
     | none => ⟨f.op, .deflated [] []⟩
 
+/-- `self._sock.sendall(data)` raises: `TransportFail`, out of the `with` block through the release; nothing is
+    written.  Happens when the socket has been shut (`sockShut`: a `send()` on a socket after `shutdown(); close()`
+    raises EBADF) and, in `Model/ThreadsN.lean`, when the environment makes the `sendall` fail -/
+def failWrite (r : List Step) (sh : Shared) (c : Cur) : Shared × Cur :=
+  (sh, { c with rest := toRelease r, err := some .transport })
+
 /-- thread `t` executes sync step `st` (the head of its program; `r` is what follows) -/
 def exec (v : Variant) (t : Tid) (st : Step) (r : List Step) (sh : Shared) (c : Cur) : Shared × Cur :=
   match st with
@@ -405,9 +413,12 @@ def exec (v : Variant) (t : Tid) (st : Step) (r : List Step) (sh : Shared) (c : 
     if sh.closed then (sh, { c with rest := toRelease r, err := some .closed })
     else if c.ldc then (sh, { c with rest := toRelease r, err := some .closing })
     else (sh, { c with rest := r })
-  | .write1 f => ({ sh with wire := sh.wire ++ [⟨t, c.idx, false, descOf f c⟩] }, { c with rest := r })
+  | .write1 f =>
+    if sh.sockShut then failWrite r sh c
+    else ({ sh with wire := sh.wire ++ [⟨t, c.idx, false, descOf f c⟩] }, { c with rest := r })
   | .write2 f =>
-    ({ sh with wire := sh.wire ++ [⟨t, c.idx, true, descOf f c⟩] }, { c with rest := r, wrote := true })
+    if sh.sockShut then failWrite r sh c
+    else ({ sh with wire := sh.wire ++ [⟨t, c.idx, true, descOf f c⟩] }, { c with rest := r, wrote := true })
   | .release => ({ sh with lock := none }, { c with rest := r })
   | .setClosing b => ({ sh with closing := b }, { c with rest := r })
   | .setClosed => ({ sh with closed := true }, { c with rest := r })
